@@ -81,12 +81,12 @@ Proof.
 Qed.
 
 (** * Record loop *)
-Lemma read_records_step nrefs r omit sp e f rest :
-  valid_rec nrefs r = true -> 0 <= sp -> encode_record r = Ok e ->
-  read_records (S f) omit nrefs sp (e ++ rest)
-  = (let '(rs, en) := read_records f omit nrefs sp rest in ((omit_view omit (canon r), false) :: rs, en)).
+Lemma read_records_step nrefs r omit e f rest :
+  valid_rec nrefs r = true -> encode_record r = Ok e ->
+  read_records (S f) omit nrefs (e ++ rest)
+  = (let '(rs, en) := read_records f omit nrefs rest in ((omit_view omit (canon r), false) :: rs, en)).
 Proof.
-  intros Hv Hsp He.
+  intros Hv He.
   destruct (encode_valid nrefs r Hv) as [tags [bin [Hb [He' Hl]]]].
   assert (Hee : e = le_put 4 (zlen (body_of r tags bin)) ++ body_of r tags bin) by congruence. subst e.
   pose proof (valid_rec_props _ _ Hv) as V.
@@ -109,7 +109,7 @@ Proof.
   replace (zlen body <? 0) with false by (symmetry; apply Z.ltb_ge; lia).
   replace (zlen (body ++ rest) <? zlen body) with false by (symmetry; apply Z.ltb_ge; rewrite zlen_app; lia).
   rewrite zfirstn_app, zskipn_app.
-  unfold body. rewrite (decode_body nrefs r omit _ sp tags bin Hv Hb Hsp). reflexivity.
+  unfold body. rewrite (decode_body nrefs r omit _ tags bin Hv Hb). reflexivity.
 Qed.
 
 Lemma encode_records_len nrefs rs bs :
@@ -125,33 +125,32 @@ Proof.
   rewrite !app_length, le_put_length. cbn [length]. lia.
 Qed.
 
-Theorem records_roundtrip nrefs omit sp rs : forall bs fuel,
-  forallb (valid_rec nrefs) rs = true -> 0 <= sp -> encode_records rs = Ok bs ->
+Theorem records_roundtrip nrefs omit rs : forall bs fuel,
+  forallb (valid_rec nrefs) rs = true -> encode_records rs = Ok bs ->
   (length rs < fuel)%nat ->
-  read_records fuel omit nrefs sp bs = (map (fun r => (omit_view omit (canon r), false)) rs, EndEOF).
+  read_records fuel omit nrefs bs = (map (fun r => (omit_view omit (canon r), false)) rs, EndEOF).
 Proof.
-  induction rs as [|r t IH]; intros bs fuel Hv Hsp He Hf.
+  induction rs as [|r t IH]; intros bs fuel Hv He Hf.
   - cbn [encode_records] in He. injection He as <-. destruct fuel; [inversion Hf|]. reflexivity.
   - cbn [forallb] in Hv. apply andb_true_iff in Hv. destruct Hv as [Hr Ht].
     cbn [encode_records] in He.
     destruct (encode_record r) as [e| | |] eqn:Er; cbn [obind] in He; try discriminate.
     destruct (encode_records t) as [bt| | |] eqn:Et; cbn [obind] in He; try discriminate.
     injection He as <-. destruct fuel; [inversion Hf|].
-    rewrite (read_records_step nrefs r omit sp e fuel bt Hr Hsp Er).
-    rewrite (IH bt fuel Ht Hsp eq_refl) by (cbn [length] in Hf; lia). reflexivity.
+    rewrite (read_records_step nrefs r omit e fuel bt Hr Er).
+    rewrite (IH bt fuel Ht eq_refl) by (cbn [length] in Hf; lia). reflexivity.
 Qed.
 
 (** Every valid header and list of valid records: the writer produces a
     stream, and the reader returns the header, the records in order (with the
-    Omit mode applied) and a clean EOF, whatever the spare capacity of buffer
-    copies. *)
-Theorem stream_roundtrip h rs omit sp :
-  valid_hdr h = true -> forallb (valid_rec (zlen (h_refs h))) rs = true -> 0 <= sp ->
+    Omit mode applied) and a clean EOF. *)
+Theorem stream_roundtrip h rs omit :
+  valid_hdr h = true -> forallb (valid_rec (zlen (h_refs h))) rs = true ->
   exists bs,
     encode_stream h rs = Ok bs /\
-    read_stream omit sp bs = Ok (h, (map (fun r => (omit_view omit (canon r), false)) rs, EndEOF)).
+    read_stream omit bs = Ok (h, (map (fun r => (omit_view omit (canon r), false)) rs, EndEOF)).
 Proof.
-  intros Hh Hv Hsp.
+  intros Hh Hv.
   assert (Henc : exists b, encode_records rs = Ok b).
   { clear Hh. induction rs as [|r t IH]; [eexists; reflexivity|].
     cbn [forallb] in Hv. apply andb_true_iff in Hv. destruct Hv as [Hr Ht].
@@ -160,6 +159,6 @@ Proof.
   destruct Henc as [b Hb]. exists (encode_header h ++ b). split.
   - unfold encode_stream. rewrite Hb. reflexivity.
   - unfold read_stream. rewrite (header_roundtrip h b Hh).
-    rewrite (records_roundtrip (zlen (h_refs h)) omit sp rs b (S (length b)) Hv Hsp Hb); [reflexivity|].
+    rewrite (records_roundtrip (zlen (h_refs h)) omit rs b (S (length b)) Hv Hb); [reflexivity|].
     pose proof (encode_records_len _ rs b Hv Hb). lia.
 Qed.
